@@ -196,7 +196,7 @@ func (_this *uint16SliceBuilder) BuildFromArray(ctx *Context, arrayType events.A
 			slice[i] = uint16(value[i*2]) |
 				(uint16(value[i*2+1]) << 8)
 		}
-		dst.Set(reflect.ValueOf(slice))
+		setSliceValue(dst, reflect.ValueOf(slice))
 	default:
 		PanicBadEvent(_this, "BuildFromSlice(%v)", arrayType)
 	}
@@ -277,7 +277,7 @@ func (_this *uint32SliceBuilder) BuildFromArray(ctx *Context, arrayType events.A
 				(uint32(value[i*4+2]) << 16) |
 				(uint32(value[i*4+3]) << 24)
 		}
-		dst.Set(reflect.ValueOf(slice))
+		setSliceValue(dst, reflect.ValueOf(slice))
 	default:
 		PanicBadEvent(_this, "BuildFromSlice(%v)", arrayType)
 	}
@@ -366,7 +366,7 @@ func (_this *uint64SliceBuilder) BuildFromArray(ctx *Context, arrayType events.A
 				(uint64(value[i*8+6]) << 48) |
 				(uint64(value[i*8+7]) << 56)
 		}
-		dst.Set(reflect.ValueOf(slice))
+		setSliceValue(dst, reflect.ValueOf(slice))
 	default:
 		PanicBadEvent(_this, "BuildFromSlice(%v)", arrayType)
 	}
@@ -441,7 +441,7 @@ func (_this *int8SliceBuilder) BuildFromArray(ctx *Context, arrayType events.Arr
 		for i := 0; i < elemCount; i++ {
 			slice[i] = int8(value[i])
 		}
-		dst.Set(reflect.ValueOf(slice))
+		setSliceValue(dst, reflect.ValueOf(slice))
 	default:
 		PanicBadEvent(_this, "BuildFromSlice(%v)", arrayType)
 	}
@@ -518,7 +518,7 @@ func (_this *int16SliceBuilder) BuildFromArray(ctx *Context, arrayType events.Ar
 			slice[i] = int16(value[i*2]) |
 				(int16(value[i*2+1]) << 8)
 		}
-		dst.Set(reflect.ValueOf(slice))
+		setSliceValue(dst, reflect.ValueOf(slice))
 	default:
 		PanicBadEvent(_this, "BuildFromSlice(%v)", arrayType)
 	}
@@ -599,7 +599,7 @@ func (_this *int32SliceBuilder) BuildFromArray(ctx *Context, arrayType events.Ar
 				(int32(value[i*4+2]) << 16) |
 				(int32(value[i*4+3]) << 24)
 		}
-		dst.Set(reflect.ValueOf(slice))
+		setSliceValue(dst, reflect.ValueOf(slice))
 	default:
 		PanicBadEvent(_this, "BuildFromSlice(%v)", arrayType)
 	}
@@ -688,7 +688,7 @@ func (_this *int64SliceBuilder) BuildFromArray(ctx *Context, arrayType events.Ar
 				(int64(value[i*8+6]) << 48) |
 				(int64(value[i*8+7]) << 56)
 		}
-		dst.Set(reflect.ValueOf(slice))
+		setSliceValue(dst, reflect.ValueOf(slice))
 	default:
 		PanicBadEvent(_this, "BuildFromSlice(%v)", arrayType)
 	}
@@ -770,7 +770,7 @@ func (_this *float32SliceBuilder) BuildFromArray(ctx *Context, arrayType events.
 				(uint32(value[i*4+3]) << 24)
 			slice[i] = math.Float32frombits(elemValue)
 		}
-		dst.Set(reflect.ValueOf(slice))
+		setSliceValue(dst, reflect.ValueOf(slice))
 	default:
 		PanicBadEvent(_this, "BuildFromSlice(%v)", arrayType)
 	}
@@ -860,7 +860,7 @@ func (_this *float64SliceBuilder) BuildFromArray(ctx *Context, arrayType events.
 				(uint64(value[i*8+7]) << 56)
 			slice[i] = math.Float64frombits(elemValue)
 		}
-		dst.Set(reflect.ValueOf(slice))
+		setSliceValue(dst, reflect.ValueOf(slice))
 	default:
 		PanicBadEvent(_this, "BuildFromSlice(%v)", arrayType)
 	}
@@ -891,4 +891,25 @@ func (_this *mediaBuilder) BuildFromMedia(ctx *Context, mediaType string, data [
 }
 
 func (_this *mediaBuilder) BuildArtificiallyEndContainer(ctx *Context) {
+}
+
+// Store a slice of a basic element type. The destination may be a slice of a
+// named type with that underlying type ([]MyUint16), which a []uint16 can
+// neither be assigned nor converted to as a whole.
+func setSliceValue(dst reflect.Value, slice reflect.Value) {
+	dstType := dst.Type()
+	if slice.Type().AssignableTo(dstType) {
+		dst.Set(slice)
+		return
+	}
+	if slice.Type().ConvertibleTo(dstType) {
+		dst.Set(slice.Convert(dstType))
+		return
+	}
+	converted := reflect.MakeSlice(dstType, slice.Len(), slice.Len())
+	elemType := dstType.Elem()
+	for i := 0; i < slice.Len(); i++ {
+		converted.Index(i).Set(slice.Index(i).Convert(elemType))
+	}
+	dst.Set(converted)
 }
